@@ -24,10 +24,12 @@ MODULES = [
     "analysis/kramers_kronig/exploratory",
     "analysis/kramers_kronig/single",
     "analysis/kramers_kronig/algorithms/__init__",
+    "analysis/zhit/__init__",
 ]
 # analysis/zhit/__init__.perform_zhit hands its Progress object to five stage functions in four other modules whose step counts
-# depend on the sizes of the option tables they return to each other; that chain is under contract in contracts/c18.py
-# (target_zhit_steps: the real stage functions run with the real Progress class over every mode combination).
+# depend on the sizes of the option tables they return to each other: their step summaries AND the sizes of what they return are
+# inferred from their bodies (no declared contract), including the nested dict-of-dicts of interpolation options.  The same chain
+# is also run with the real Progress class in contracts/c18.py (target_zhit_steps).
 
 
 def functions_with_progress(module: str) -> List[ast.FunctionDef]:
@@ -112,7 +114,12 @@ def _minimize(ex, call, st, line):
     return st
 
 
-EXTERNALS = {"minimize": _minimize}
+def _init_windows(ex, call, st, line):
+    """_initialize_window_functions() is only called when the table is empty, which the assumption below excludes"""
+    return st
+
+
+EXTERNALS = {"minimize": _minimize, "_initialize_window_functions": _init_windows}
 
 
 def requires_for(module: str) -> Dict[str, Requires]:
@@ -127,8 +134,18 @@ def contracts_for(module: str) -> Dict[str, StepContract]:
     return out
 
 
+def _assume_windows(ex):
+    """ASSUMED: the module-level table of window functions is non-empty whenever a Z-HIT function reads it: perform_zhit and
+    _generate_window_options fill it first when it is empty, and _initialize_window_functions is assumed to find at least one
+    window in scipy.signal.windows (true on the repaired tree).  The size of the table is one symbol shared by all of them."""
+    from pyvc.stepcount import State
+    ex.hyps.append(ex.length(ast.Name(id="_WINDOW_FUNCTIONS", ctx=ast.Load()), State()) >= 1)
+    ex.note("ASSUMED: the table of window functions is non-empty when it is read (it is filled on first use)")
+
+
 def _analyse(sess, module, fn, own=None):
-    return analyse(sess, module, fn, contracts_for(module), own=own, requires=requires_for(module), externals=EXTERNALS, loop_invs=LOOP_INVARIANTS.get((module, fn.name), {}))
+    pre = _assume_windows if "zhit" in module else None
+    return analyse(sess, module, fn, contracts_for(module), own=own, requires=requires_for(module), externals=EXTERNALS, loop_invs=LOOP_INVARIANTS.get((module, fn.name), {}), prepare=pre)
 
 
 # public entry points that take (data, **numeric options): a counter-model of a step obligation is replayed by calling the
